@@ -43,6 +43,7 @@ def HELPER(f, fields, strs): return {"k": "helper", "f": f, "fields": list(field
 def SUBSCR(a, i): return {"k": "sub", "a": a, "i": i}
 def IFEXP(c, a, b): return {"k": "ifexp", "c": c, "a": a, "b": b}
 def CTOR(f, arg): return {"k": "ctor", "f": f, "arg": [ord(c) for c in arg]}
+def TREF(ty): return {"k": "tref", "ty": ty}
 def HASFIELD(f): return {"k": "hasfield", "f": f}
 def TYPED(ty, op, b): return {"k": "typed", "form": "cmp", "ty": ty, "op": op, "b": b}
 def INTYPED(ty, b): return {"k": "typed", "form": "in", "ty": ty, "op": "In", "b": b}
@@ -54,11 +55,14 @@ BINOPS_SUP = ["Add", "Mult", "Mod", "Div", "BitAnd", "BitOr"]
 BINOPS_UNSUP = ["Sub", "FloorDiv"]
 
 
-def src(e):
+def src(e, vn="x"):
+    """vn: the name of the enclosing generator expression's loop variable"""
     k = e["k"]
+    _src, src = src_, (lambda x: src_(x, vn))
     if k == "const": return repr(val(e["v"]))
     if k == "field": return "r." + e["f"]
-    if k == "var": return "x"
+    if k == "var": return vn
+    if k == "tref": return "Type." + e["ty"]
     if k == "list": return "[" + ", ".join(src(x) for x in e["es"]) + "]"
     if k == "tuple": return "(" + ", ".join(src(x) for x in e["es"]) + ("," if len(e["es"]) == 1 else "") + ")"
     if k in ("cmp", "bool", "bin"): return f"({src(e['a'])} {OPS[e['op']]} {src(e['b'])})"
@@ -67,8 +71,9 @@ def src(e):
     if k == "neg": return f"(-{src(e['a'])})"
     if k == "call": return f"{e['f']}({src(e['a'])})"
     if k == "gen":
-        s = f"{e['q']}({src(e['elt'])} for x in {src(e['it'])}"
-        if e["hasif"]: s += f" if {src(e['cond'])}"
+        v2 = e.get("vn", "x")
+        s = f"{e['q']}({_src(e['elt'], v2)} for {v2} in {src(e['it'])}"
+        if e["hasif"]: s += f" if {_src(e['cond'], v2)}"
         return s + ")"
     if k == "helper":
         strs = ["".join(map(chr, q)) for q in e["strs"]]
@@ -83,6 +88,9 @@ def src(e):
         if e["form"] == "cmp": return f"(Type.{e['ty']} {OPS[e['op']]} {src(e['b'])})"
         return f"({src(e['b'])} in Type.{e['ty']})"
     raise ValueError(k)
+
+
+src_ = src
 
 
 def supported_interpreted(e):
@@ -119,13 +127,24 @@ RECS = [
 FIELDS_M = FIELDS + [("string", "m")]
 
 
-def envs(with_c=False):
-    """the records as environments for spec/Selector.tla (with the field-type table the typed matchers need)"""
+GROUPED_OTHER = {"q": S("a"), "n": I(55)}      # second member of the grouped record: field q is new, n is shadowed by the first member
+
+
+def envs(with_c=False, grouped=False):
+    """the records as environments for spec/Selector.tla (with the field-type table the typed matchers need).
+    grouped: append the environment of a GROUPED record made of record 1 and another record (first member wins)"""
     out = []
     for r in RECS:
         fl = (FIELDS_M if "m" in r else FIELDS) + ([FIELD_C] if with_c else [])
         r = {k: v for k, v in r.items() if with_c or k != "c"}
         out.append(dict(r, **{"$types": {"t": "meta", "v": {n: t for t, n in fl}}, "$order": {"t": "meta", "v": [n for t, n in fl]}}))
+    if grouped:
+        first = out[0]
+        env = dict(first)
+        env["q"] = GROUPED_OTHER["q"]
+        env["$types"] = {"t": "meta", "v": dict(first["$types"]["v"], q="string")}
+        env["$order"] = {"t": "meta", "v": first["$order"]["v"] + ["q"]}
+        out.append(env)
     return out
 MISSING = ["m", "m2"]   # field names no record has
 
@@ -152,13 +171,18 @@ def py_eval(code, recd):
         return {"k": "exc", "v": False}
 
 
-def real_records(with_c=False):
-    from flow.record import RecordDescriptor
+def real_records(with_c=False, grouped=False):
+    from flow.record import GroupedRecord, RecordDescriptor
 
     extra = [FIELD_C] if with_c else []
     D = RecordDescriptor("t/sel", FIELDS + extra)
     DM = RecordDescriptor("t/sel", FIELDS_M + extra)
-    return [(DM if "m" in r else D)(**{k: val(v) for k, v in r.items() if with_c or k != "c"}, _generated=None) for r in RECS], D
+    recs = [(DM if "m" in r else D)(**{k: val(v) for k, v in r.items() if with_c or k != "c"}, _generated=None) for r in RECS]
+    if grouped:
+        O = RecordDescriptor("t/other", [("string", "q"), ("varint", "n")])
+        first = (D)(**{k: val(v) for k, v in RECS[0].items() if with_c or k != "c"}, _generated=None)
+        recs.append(GroupedRecord("g/sel", [first, O(**{k: val(v) for k, v in GROUPED_OTHER.items()}, _generated=None)]))
+    return recs, D
 
 
 def engine_eval(cls, source, recs, cache=None):
@@ -184,7 +208,7 @@ def make_case(e, frecs, plain):
 
     s = src(e)
     miss = has_missing(e)
-    if miss or any(x["k"] in ("helper", "hasfield", "typed", "ctor") or (x["k"] == "field" and x["f"] in ("ip", "p")) for x in walk(e)):
+    if miss or any(x["k"] in ("helper", "hasfield", "typed", "ctor", "tref") or (x["k"] == "field" and x["f"] in ("ip", "p")) for x in walk(e)):
         py = [{"k": "skip", "v": False} for _ in plain]   # not cross-validated by eval (see _Missing)
     else:
         code = compile(s, "<e>", "eval")
@@ -262,6 +286,15 @@ def c07_exprs(rnd, budget):
     right = atoms + [c for c in cmps if c["op"] in ("In", "GtE") and c["a"] in fields and (c["b"] in fields or c["b"] in lists)]
     bools = [BOOL(o, x, y) for o in ("And", "Or") for x in simple for y in right]
     nots = [NOT(x) for x in atoms + [c for c in cmps if c["b"] in fields]]
+    # generator variables NAMED like a field type (record, path, string, net ...): the name denotes the element
+    def named(gx, vn):
+        return dict(gx, vn=vn)
+    gen_named = [named(gx, vn) for vn in ("path", "record", "string", "net", "uri", "digest") for gx in rnd.sample(gens, 25)]
+    # typed field matchers inside CHAINED comparisons: (Type.t OP b) and (b OP2 c)
+    tchains = [CHAIN(o, o2, TREF(ty), b, c) for ty in ("string", "varint") for o in ("In", "Eq", "NotEq", "Lt") for o2 in ("NotEq", "Eq", "Lt", "In")
+               for b in (LST(C(S("a")), C(S("b"))), TUP(C(I(1)), C(I(2))), LST(C(S("zz"))), C(S("a")), C(I(1)))
+               for c in (LST(), C(S("a")), TUP(C(I(3)), C(I(4))), LST(LST(C(S("zz"))), C(I(1))))
+               if not (o == "In" and b["k"] == "const")]       # `Type.t in <text>` is documented as interpreted-only
     helpers = [HELPER(f, fs, ss) for f in ("field_equals", "field_contains", "field_regex") for fs in (["s"], ["s", "z"], ["n"], ["w", "s"]) for ss in (["a"], ["AB"], ["b", "a"], [""], ["", "q"])]
     # two generator expressions in ONE expression (same loop variable), under and / or / not
     g_short = [x for x in gens if x["it"] in (F("l"), F("s")) or x["it"] in lists]
@@ -286,7 +319,7 @@ def c07_exprs(rnd, budget):
             [CMP(o, F("l"), mk(*es)) for o in ("Eq", "NotEq") for es in elems for mk in (LST, TUP)] + \
             [CMP(o, mk(*es), LST(mk1(*es), C(I(1)))) for o in ("In", "NotIn") for es in elems[:3] for mk in (LST, TUP) for mk1 in (LST, TUP)] + \
             [CMP("Eq", BIN("Add", mk(*es), mk(*es)), mk2(*(es + es))) for es in elems[:3] for mk in (LST, TUP) for mk2 in (LST, TUP)]
-    groups = {"kinds": kinds, "typed": typed, "ip_path": iph, "cmp": cmps, "bin": [CMP("Eq", b, C(I(2))) for b in bins] + bins, "call": calls, "chain": chains, "gen": gens, "l2cmp": l2, "neg": negs, "bool": bools, "not": nots, "helper": helpers, "gen2": gen2, "unsupported": unsup}
+    groups = {"kinds": kinds, "typed": typed, "ip_path": iph, "cmp": cmps, "bin": [CMP("Eq", b, C(I(2))) for b in bins] + bins, "call": calls, "chain": chains, "gen": gens, "l2cmp": l2, "neg": negs, "bool": bools, "not": nots, "helper": helpers, "gen2": gen2, "unsupported": unsup, "gen_named": gen_named, "typed_chain": tchains}
     total = sum(len(g) for g in groups.values())
     out = []
     # groups of moderate size are ALWAYS taken completely (a sample of them once lost the only expressions that tell a
